@@ -709,3 +709,115 @@ def length_contradiction_rule(m, rid):
                        "never hold, so what it guards (an optional trailing expression) is never taken from the text and is dropped from "
                        "the tree" % (q, A.text(x), subject, sorted(allowed)), m.loc(f, n))
     return r
+
+
+# ---------------------------------------------------------------------------------------------------------------
+# index provenance: an offset found in one string slices that string (or one with the same offsets), never another
+_FIND = {"find", "rfind", "index", "rindex"}
+_SAMELEN = {"upper", "lower", "swapcase", "casefold"}
+
+
+def index_provenance_scan(func):
+    """(sites, findings): every slice `Y[..i..]` whose bound mentions a variable i that is only ever assigned from `R.find(...)`-like
+    calls; a finding when Y is neither such an R nor a same-offset alias of one (R.upper(), a plain copy)."""
+    src, equiv = {}, {}
+    other = set()
+    for n in A.body_nodes(func):
+        if isinstance(n, ast.Assign) and len(n.targets) == 1 and isinstance(n.targets[0], ast.Name):
+            t, v = n.targets[0].id, n.value
+            if isinstance(v, ast.Call) and isinstance(v.func, ast.Attribute) and v.func.attr in _FIND and isinstance(v.func.value, ast.Name):
+                src.setdefault(t, set()).add(v.func.value.id)
+            else:
+                other.add(t)
+                if isinstance(v, ast.Call) and isinstance(v.func, ast.Attribute) and v.func.attr in _SAMELEN and isinstance(v.func.value, ast.Name):
+                    equiv.setdefault(t, set()).add(v.func.value.id)
+                    equiv.setdefault(v.func.value.id, set()).add(t)
+                elif isinstance(v, ast.Name):
+                    equiv.setdefault(t, set()).add(v.id)
+                    equiv.setdefault(v.id, set()).add(t)
+        else:
+            tg = []
+            if isinstance(n, ast.Assign):
+                tg = n.targets
+            elif isinstance(n, (ast.AugAssign, ast.AnnAssign)):
+                tg = [n.target]
+            elif isinstance(n, (ast.For, ast.comprehension)):
+                tg = [n.target]
+            elif isinstance(n, ast.NamedExpr):
+                tg = [n.target]
+            for t in tg:
+                other |= {x.id for x in ast.walk(t) if isinstance(x, ast.Name)}
+    # match objects: m = <pattern>.match(R) / re.match(p, R); Y[m.end():]
+    msrc = {}
+    for n in A.body_nodes(func):
+        if isinstance(n, ast.Assign) and len(n.targets) == 1 and isinstance(n.targets[0], ast.Name) and isinstance(n.value, ast.Call) \
+                and isinstance(n.value.func, ast.Attribute) and n.value.func.attr in ("match", "search", "fullmatch") and n.value.args:
+            v = n.value
+            arg = v.args[1] if (A.text(v.func.value) == "re" and len(v.args) >= 2) else v.args[0]
+            if isinstance(arg, ast.Name):
+                msrc.setdefault(n.targets[0].id, set()).add(arg.id)
+                other.discard(n.targets[0].id)
+    reassigned = {t for t in msrc if sum(1 for n in A.body_nodes(func) if isinstance(n, ast.Assign) and any(
+        isinstance(x, ast.Name) and x.id == t for tt in n.targets for x in ast.walk(tt))) > len([1 for n in A.body_nodes(func)
+        if isinstance(n, ast.Assign) and len(n.targets) == 1 and isinstance(n.targets[0], ast.Name) and n.targets[0].id == t
+        and isinstance(n.value, ast.Call) and isinstance(n.value.func, ast.Attribute) and n.value.func.attr in ("match", "search", "fullmatch")])}
+    sites, bad = 0, []
+    for n in A.body_nodes(func):
+        if isinstance(n, ast.Subscript) and isinstance(n.value, ast.Name) and isinstance(n.slice, ast.Slice):
+            for part in (n.slice.lower, n.slice.upper):
+                for c in ast.walk(part) if part is not None else ():
+                    if isinstance(c, ast.Call) and isinstance(c.func, ast.Attribute) and c.func.attr in ("end", "start") \
+                            and isinstance(c.func.value, ast.Name) and c.func.value.id in msrc and c.func.value.id not in reassigned:
+                        sites += 1
+                        recv = msrc[c.func.value.id]
+                        if not (n.value.id in recv or any(n.value.id in equiv.get(r_, ()) for r_ in recv)):
+                            bad.append((n, A.text(c), sorted(recv)))
+            used = {x.id for part in (n.slice.lower, n.slice.upper) if part is not None for x in ast.walk(part) if isinstance(x, ast.Name)}
+            for i in sorted(used & set(src)):
+                if i in other:
+                    continue
+                sites += 1
+                recv = src[i]
+                if n.value.id in recv or any(n.value.id in equiv.get(r_, ()) for r_ in recv):
+                    continue
+                bad.append((n, i, sorted(recv)))
+    return sites, bad
+
+
+_INDEX_POSITIVE = '''
+def f(newline):
+    line, repmap = string_replace_map(newline)
+    i = line.find("=")
+    a = line[1:i]
+    b = newline[i:]
+    u = newline.upper()
+    j = u.find("X")
+    c = newline[:j]
+    mo = pat.match(line)
+    d = line[mo.end():]
+    e = newline[mo.end():]
+    return a, b, c, d, e
+'''
+
+
+def index_provenance_rule(m, rid):
+    r = RuleResult(rid, "an offset obtained with find/rfind/index on one string is only used to slice that string (or a same-offset copy such "
+                        "as its upper-cased form), never the text before/after the replace map or another piece: otherwise the cut lands "
+                        "somewhere else and text is dropped or duplicated")
+    fn = ast.parse(_INDEX_POSITIVE).body[0]
+    sites, bad = index_provenance_scan(fn)
+    if sites != 5 or sorted((A.text(b[0]), b[1]) for b in bad) != [("newline[i:]", "i"), ("newline[mo.end():]", "mo.end()")]:
+        r.error("the positive example is no longer recognised (%d sites, %s)" % (sites, [(A.text(b[0]), b[1]) for b in bad]))
+        return r
+    r.floor = 200
+    for (path, q), f in sorted(m.funcs.items()):
+        if not f.module.startswith("fparser."):
+            continue
+        sites, bad = index_provenance_scan(f.node)
+        r.instances += sites
+        for n, i, recv in bad:
+            r.fail("%s|index-provenance|%s|%s" % (q, i, n.value.id), "%s: `%s` cuts `%s` at `%s`, but `%s` was found in `%s` -- a different "
+                   "string with different offsets (placeholders, stripped blanks): the piece taken is not the one meant, so source text is "
+                   "lost or repeated" % (q, A.text(n), n.value.id, i, i, "`/`".join(recv)), m.loc(f, n))
+    r.ob(True, "%d slices by a searched offset, all on the searched string" % r.instances)
+    return r
